@@ -38,6 +38,11 @@ through the generated code (Model/RefineGenCheck.check_gen_box, from diameter).
       (max_iter 1-2, starts 1-2.5 px off, tiny max_shift, poor model fits with small
       max_rms_dev): finite cost implies cost <= max_rms_dev and values within bounds,
       NaN cost implies inputs kept.
+
+Family 'frames' (multi-frame readers): a frames sequence and a table over 2-4 frames, mostly with a 'global'
+parameter, clusters of >= 2 members in frames before the last one.  At level 'global' the fit groups are the values
+of the cluster column over all frames and each group is cut out of the image of the frame of its first member, so
+the monitors are: no cluster id shared between frames, and every separated feature recovered < 0.1 px in ITS frame.
 """
 import json, math, os, sys, hashlib
 import numpy as np
@@ -379,12 +384,13 @@ def direct_gen_term(c, modes, box):
 # --------------------------------------------------------------------------
 # (c): real runs
 # --------------------------------------------------------------------------
-def model_image(c):
+def model_image(c, centres=None):
+    """the image of a single-image case; with centres given: one frame of a multi-frame case (same model parameters)"""
     shape = tuple(c['shape'])
     nd = len(shape)
     idx = np.indices(shape).astype(np.float64)
     im = np.full(shape, float(c['bg']))
-    for ctr in c['centres']:
+    for ctr in (c['centres'] if centres is None else centres):
         r2 = sum(((idx[k] - ctr[k]) / c['sizes'][k]) ** 2 for k in range(nd))
         im = im + c['signal'] * np.exp(-0.5 * nd * r2)
     if c.get('noise', 0) > 0:
@@ -474,10 +480,31 @@ class Recorder:
         return False
 
 
+class FrameSeq:
+    """minimal frames sequence (what refine_leastsq needs of a pims.FramesSequence): frame_shape, indexable by frame
+    number, len.  Frame numbers without features show the bare background."""
+
+    def __init__(self, c):
+        self.c = c
+        self.frame_shape = tuple(c['shape'])
+        self.images = {int(no): model_image(c, ctrs) for no, ctrs in zip(c['frame_list'], c['frame_centres'])}
+        self.asked = []
+
+    def __getitem__(self, i):
+        i = int(i)
+        self.asked.append(i)
+        if i not in self.images:
+            self.images[i] = model_image(self.c, [])
+        return self.images[i]
+
+    def __len__(self):
+        return max(self.c['frame_list']) + 1
+
+
 def run_refine(c):
     """-> ('ok', DataFrame out, DataFrame start-with-defaults, recorded blocks) | ('raised', exc, start, blocks)"""
     from trackpy.refine.least_squares import refine_leastsq
-    im = model_image(c)
+    im = FrameSeq(c) if c.get('frame_list') else model_image(c)
     f = table_of(c)
     kw = dict(c.get('kwargs', {}))
     if 'options' in kw:
@@ -830,7 +857,129 @@ def gen_tight(rng, tier):
     return c
 
 
-CORPUS = [
+GLOBAL_MODES = [dict(signal='global'), dict(size='global'), dict(signal='var', size='global'), dict(background='global'),
+                dict(signal='global', size='cluster'), dict(size='global', background='cluster'), dict(signal='global', size='global')]
+CLUSTER_MODES = [None, dict(size='var'), dict(signal='cluster'), dict(size='cluster')]
+
+
+def place_pair(rng, shape, margin, others, mindist, dlo, dhi, tries=200):
+    """two centres dlo..dhi apart, both inside the margins and > mindist from `others`; None if no room"""
+    nd = len(shape)
+    for _ in range(tries):
+        a = [rng.uniform(margin[k], shape[k] - 1 - margin[k]) for k in range(nd)]
+        v = [rng.gauss(0, 1) for _ in range(nd)]
+        if nd == 3:
+            v[0] *= 0.3          # the z extent of the 3-D stacks is small
+        nv = math.sqrt(sum(x * x for x in v)) or 1.0
+        dist = rng.uniform(dlo, dhi)
+        b = [a[k] + v[k] / nv * dist for k in range(nd)]
+        if all(margin[k] <= b[k] <= shape[k] - 1 - margin[k] for k in range(nd)) and \
+                all(math.dist(x, o) > mindist for x in (a, b) for o in others):
+            return [a, b]
+    return None
+
+
+def gen_frames(rng, tier):
+    """a multi-frame reader (frames sequence) and a table that spans 2-4 frames: every frame is a noise-free image of
+    the same exact model (common signal / size / background, so that 'global' parameters are exact too) with its own
+    centres; frame numbers contiguous from 0 or an arbitrary increasing selection (frames without features in
+    between); rows grouped by frame or interleaved; part of the frames hold a pair closer than `separation` (a
+    cluster with >= 2 members: either with disjoint masks and a large separation -- accuracy demanded -- or a truly
+    overlapping dimer -- no accuracy demanded for its members); parameter modes at level 'global' (one fit over
+    all frames, fit groups = clusters) or at level 'cluster' (one fit per (frame, cluster)); starts <= 1.5 px off"""
+    c = base_case(rng, 'frames')
+    nd = c['ndim']
+    if nd == 2:
+        d0 = rng.choice([9, 9, 11])
+        diameter = [d0, d0] if c['iso'] else [d0, d0 + 2]
+        shape = [rng.randint(56, 68), rng.randint(60, 76)]
+    else:
+        diameter = [7, 7, 7] if c['iso'] else [5, 7, 7]
+        shape = [rng.randint(22, 24), rng.randint(32, 36), rng.randint(34, 40)]
+    rel = rng.uniform(0.2, 0.3)
+    sizes = [round(rel * x * 64) / 64 for x in diameter]
+    if c['iso']:
+        sizes = [sizes[0]] * nd
+    c.update(diameter=diameter, radius=[x // 2 for x in diameter], shape=shape, sizes=sizes)
+    dmax = max(diameter)
+    mind = 1.5 * dmax + 3
+    margin = [r + 3 for r in c['radius']]
+    nf = rng.choice([2, 2, 3, 3, 4])
+    frame_list = list(range(nf)) if rng.random() < 0.6 else sorted(rng.sample(range(0, 9), nf))
+    sep_pairs = rng.random() < 0.7          # pairs with disjoint masks (else: overlapping dimers)
+    centres, truth, frame_of, pair_frames = [], [], [], 0
+    for k, no in enumerate(frame_list):
+        want_pair = rng.random() < (0.85 if k < nf - 1 else 0.4)
+        if want_pair:           # a pair and at least one more row (the cluster labels of the frame then have a hole)
+            n = rng.randint(3, 4) if nd == 2 else rng.randint(2, 3)
+        else:
+            n = rng.randint(1, 3 if nd == 2 else 2)
+        cs, exact = [], []
+        if want_pair and n >= 2:
+            pr = place_pair(rng, shape, margin, [], mind, mind, mind + 2) if sep_pairs else \
+                place_pair(rng, shape, margin, [], mind, 0.6 * dmax, 0.8 * dmax)
+            if pr:
+                cs, exact = pr, [sep_pairs, sep_pairs]
+                pair_frames += 1
+        for _ in range(300):
+            if len(cs) >= n:
+                break
+            ctr = [rng.uniform(margin[j], shape[j] - 1 - margin[j]) for j in range(nd)]
+            if all(math.dist(ctr, o) > mind for o in cs):
+                cs.append(ctr)
+                exact.append(True)
+        order = list(range(len(cs)))
+        rng.shuffle(order)          # the pair is not always the first two rows of its frame
+        centres.append([cs[i] for i in order])
+        truth += [list(cs[i]) if exact[i] else None for i in order]
+        frame_of += [no] * len(cs)
+    c['frame_list'] = frame_list
+    c['frame_centres'] = centres
+    c['centres'] = [x for fr in centres for x in fr]
+    starts = [[ctr[k] + o for k, o in enumerate(offset(rng, nd, 1.5))] for ctr in c['centres']]
+    c['rows'] = rows_from(rng, c, starts, exact=True)
+    if sep_pairs and pair_frames:
+        c['separation'] = int(math.ceil(mind + 3)) + rng.choice([0, 0, 4])
+    else:
+        c['separation'] = rng.choice([None, None, dmax + 2])
+    c['param_mode'] = rng.choice(GLOBAL_MODES) if rng.random() < 0.75 else rng.choice(CLUSTER_MODES)
+    if rng.random() < 0.25:
+        c['bounds'] = rng.choice([dict(pos_abs=4.0), dict(signal=(1.0, 1000.0)), dict(pos_abs=(3.0, 3.0), size=(0.5, 16.0)), dict(background=(0.0, 255.0))])
+    full = (list(c['extra_param_cols']), [list(r) for r in c['rows']])
+    finish_table(rng, c)
+    if any(v == 'global' for v in c['param_mode'].values()) if c['param_mode'] else False:
+        # one fit over the whole table: it keeps its background column.  (With the column absent the background starts
+        # at the default 0.0, and SLSQP then runs into its iteration limit on tables of >= 8 features -- on a single
+        # image just as well; that is a matter of table size, reported separately, not of the reader.)
+        c['extra_param_cols'], c['rows'] = full
+    if rng.random() < 0.35:         # rows of the frames interleaved
+        order = list(range(len(c['rows'])))
+        rng.shuffle(order)
+        c['rows'] = [c['rows'][i] for i in order]
+        truth = [truth[i] for i in order]
+        frame_of = [frame_of[i] for i in order]
+    c['truth'] = truth
+    c['frame_col'] = frame_of
+    return c
+
+
+def frames_corpus():
+    """the witness that showed the blind spot: two frames, frame 0 holds a cluster of two (11.8 px apart, separation 20),
+    one common signal for all features"""
+    tr = {0: [[15.3, 15.6], [15.8, 27.4], [45.2, 20.7], [40.4, 48.3]], 1: [[20.6, 40.3], [45.7, 14.2]]}
+    offs = [(1.0, -1.0), (-0.9, 1.1), (0.7, 1.2), (-1.2, -0.8), (1.1, 0.9), (-1.0, 1.0)]
+    flat = tr[0] + tr[1]
+    out = []
+    for pm in (dict(signal='global'), dict(signal='var', size='global')):
+        out.append(dict(family='corpus', ndim=2, iso=True, diameter=[9, 9], radius=[4, 4], shape=[64, 64], sizes=[2.0, 2.0], signal=200.0, bg=0.0,
+                        noise=0, noise_seed=1, frame_list=[0, 1], frame_centres=[tr[0], tr[1]], centres=flat, truth=[list(x) for x in flat],
+                        rows=[[t[0] + o[0], t[1] + o[1], 150.0, 2.0, 0.0] for t, o in zip(flat, offs)], index=list(range(6)),
+                        extra_param_cols=['signal', 'size', 'background'], param_mode=pm, bounds={}, kwargs={}, separation=20,
+                        frame_col=[0, 0, 0, 0, 1, 1], foreign=False))
+    return out
+
+
+CORPUS = frames_corpus() + [
     # DESIGN §4 lists no defect for C16; these are the tricky cases met while building the check
     dict(family='corpus', ndim=2, iso=True, diameter=[13, 13], radius=[6, 6], shape=[40, 50], sizes=[3.0, 3.0], signal=200.0, bg=10.0,
          noise=0, noise_seed=1, centres=[[15.25, 20.5], [30.25, 40.5]], truth=[[15.25, 20.5], [30.25, 40.5]],
@@ -957,6 +1106,28 @@ class Runs:
             if col in ('mass', 'tag'):
                 if list(out.loc[f.index, col]) != list(f[col]):
                     self.violate('refine_leastsq: foreign column changed', 'column %s changed' % col, c)
+        multi = bool(c.get('frame_list'))
+        if multi:
+            chk.tally('frames: %d frames, level %s' % (len(c['frame_list']), 'global' if level_global else 'cluster'))
+            chk.tally('frames: frame numbers ' + ('0..n-1' if c['frame_list'] == list(range(len(c['frame_list']))) else 'with gaps'))
+            chk.tally('frames: rows ' + ('grouped by frame' if list(c['frame_col']) == sorted(c['frame_col']) else 'interleaved'))
+            if list(out.loc[f.index, 'frame']) != list(f['frame']):
+                self.violate('refine_leastsq: frame column changed', 'frame column of the output %s differs from the input %s'
+                             % (list(out.loc[f.index, 'frame']), list(f['frame'])), c)
+                return
+            last = max(c['frame_list'])
+            big = [int(fr) for (fr, _), g in out.groupby(['frame', 'cluster']) if len(g) >= 2]
+            chk.tally('frames: cluster of >= 2 members ' + ('in a frame before the last one' if any(fr < last for fr in big) else
+                                                             ('in the last frame only' if big else 'absent')))
+        if level_global:
+            # level 'global': the fit groups are the values of the cluster column over ALL frames, and every group is cut
+            # out of the image of the frame of its first member: a cluster id shared by two frames fits a feature
+            # against the image of a frame it is not in
+            spans = {int(k): sorted(set(int(x) for x in g['frame'])) for k, g in out.groupby('cluster')}
+            bad = {k: v for k, v in spans.items() if len(v) > 1}
+            if bad:
+                self.violate('refine_leastsq: a fit group of the global fit spans several frames',
+                             'cluster ids shared between frames (id: frames) %s: the members are all fitted against the image of one frame' % bad, c)
         units = units_of(out, level_global)
         nfit = 0
         fd = f.to_dict('index')
@@ -997,9 +1168,16 @@ class Runs:
                 nfit += 1
                 chk.tally('unit: fitted, size %d' % min(len(labels), 4))
         # ---- accuracy (exact model, separated, noise free)
-        if c.get('truth') is not None and c['family'] in ('accuracy', 'corpus') and not c.get('kwargs'):
+        demand = c.get('truth') is not None and c['family'] in ('accuracy', 'corpus', 'frames') and not c.get('kwargs')
+        if demand and level_global and any(tr is None for tr in c['truth']):
+            # one fit over the whole table, and the table holds overlapping features: not 'separated features'
+            chk.tally('frames accuracy: not demanded (global fit over a table with an overlapping dimer)')
+            demand = False
+        if demand:
             worst = 0.0
             for L, tr in zip(f.index, c['truth']):
+                if tr is None:       # member of an overlapping dimer: not a 'separated feature'
+                    continue
                 if math.isnan(float(out.loc[L, 'cost'])):
                     self.violate('refine_leastsq: exact-model feature not fitted', 'feature %s of a noise-free exact-model image got cost NaN' % L, c)
                     continue
@@ -1007,7 +1185,7 @@ class Runs:
                 worst = max(worst, err)
                 if err >= 0.1:
                     self.violate('refine_leastsq: exact-model centre off by >= 0.1 px', 'feature %s ends %.4f px from the true centre' % (L, err), c, dict(error=err))
-            chk.tally('accuracy: worst error < 1e-3' if worst < 1e-3 else ('accuracy: worst error < 0.1' if worst < 0.1 else 'accuracy: worst error >= 0.1'))
+            chk.tally(('frames accuracy' if multi else 'accuracy') + (': worst error < 1e-3' if worst < 1e-3 else (': worst error < 0.1' if worst < 0.1 else ': worst error >= 0.1')))
         if c['family'] == 'nonconvergent':
             for L, tr in zip(f.index, c['truth']):
                 off = math.dist([float(fd[L][p]) for p in POS[c['ndim']]], tr)
@@ -1104,7 +1282,8 @@ def run(chk):
     # (c)
     runs = Runs(chk)
     plan = [(gen_accuracy, 90 if quick else 900), (gen_bounded, 180 if quick else 2300), (gen_failure, 110 if quick else 1200),
-            (gen_tight, 30 if quick else 300), (gen_nonconv, 30 if quick else 300), (gen_exhaust, 70 if quick else 400)]
+            (gen_tight, 30 if quick else 300), (gen_nonconv, 30 if quick else 300), (gen_exhaust, 70 if quick else 400),
+            (gen_frames, 40 if quick else 500)]
     todo = list(CORPUS)
     for gen, n in plan:
         todo += [gen(rng, chk.tier) for _ in range(n)]
@@ -1121,7 +1300,12 @@ def run(chk):
         "(c) refine_leastsq on synthetic Gaussian images, 2-D/3-D, iso/anisotropic, single features and overlapping clusters, levels cluster/global, "
         "families: accuracy (noise-free exact model, starts <= 1.5 px off), bounds (random modes and dictionaries, noise), failure (out-of-image, edge, NaN/inf "
         "parameters, flat starts, tiny max_rms_dev, SLSQP maxiter 1-3, zero/constant images), exhaust (max_iter 1-3, starts 1-2.5 px off, max_shift down to 1e-6 so that the loop "
-        "runs out without a break, wrong constant size/signal or noise with max_rms_dev 1e-6..0.1), tight (windows at the edge of feasibility, zero-width boxes), nonconvergent (exact-model features with SLSQP limited to 1-2 iterations: must fail), corpus; draws whose box is empty for some unit (decided by the Coq model) or with a non-finite position are invalid arguments, outside the property: counted as skipped, not run; "
+        "runs out without a break, wrong constant size/signal or noise with max_rms_dev 1e-6..0.1), frames (a frames-sequence reader and a table over 2-4 frames, "
+        "frame numbers 0..n-1 or with gaps, rows grouped by frame or interleaved, every frame a noise-free exact-model image with its own centres, "
+        "most frames before the last hold a cluster of >= 2 members followed by further rows -- disjoint masks under a large `separation`, or an overlapping dimer --, "
+        "75 % parameter modes with a 'global' parameter (one fit over all frames; the table then carries its background column), 25 % per-cluster modes, starts <= 1.5 px off: "
+        "all monitors of the other families, plus: frame column kept, at level global no cluster id (= fit group) shared between frames, every feature with "
+        "a disjoint mask < 0.1 px from its true centre in ITS frame; accuracy not demanded for members of overlapping dimers nor for a global fit whose table holds one), tight (windows at the edge of feasibility, zero-width boxes), nonconvergent (exact-model features with SLSQP limited to 1-2 iterations: must fail), corpus; draws whose box is empty for some unit (decided by the Coq model) or with a non-finite position are invalid arguments, outside the property: counted as skipped, not run; "
         "every unit goes through the Coq monitor check_unit and through the driver replay check_drive (recorded prepare_subimages / minimize outcomes "
         "per iteration as oracles of Model/RefineDriver2; iteration count, failed/fitted, written-back values and cost must agree exactly); "
         "(d) every direct case also through the code generated from the current source (Gen/bounds.v). non-trivial = direct case with a non-empty dictionary / run with a fitted unit and "
@@ -1135,7 +1319,9 @@ def run(chk):
         "SLSQP returns a point of the box on success (hypothesis opt_in_box of C16_success_in_bounds); exercised by the monitor, not proved",
         "float arithmetic of compute_bounds agrees with exact rationals within 2^-40 relative; monitor tolerance on box membership 1e-9 relative",
         "no theorem covers 'no other Python exception escapes' or the 0.1 px accuracy sentence: monitor only (status partial)",
-        "negative zero, multi-frame readers, constraints, compute_error, fit functions other than 'gauss', tables with duplicate index labels, empty tables "
+        "multi-frame readers are a minimal frames sequence of the harness (frame_shape, __getitem__ by frame number, __len__), not pims; frames of one case share "
+        "shape, signal, size and background",
+        "negative zero, constraints, compute_error, fit functions other than 'gauss', tables with duplicate index labels, empty tables "
         "and all-const parameter modes are outside the generated domain",
         "the feasibility filter computes the units with trackpy.static.cluster (the function refine_leastsq itself calls) and the boxes with the Coq model",
         "observed, outside the property: an empty box (lower > upper, also through default bounds) makes scipy raise ValueError out of refine_leastsq "
